@@ -749,7 +749,7 @@ package tcell
 //@ pred b64(c byte) = (c >= 'A' && c <= 'Z') || (c >= 'a' && c <= 'z') || (c >= '0' && c <= '9') || c == '+' || c == '/' || c == '='
 
 //@ func (*tScreen).parseClipboard
-//@   arith bv
+//@   arith math
 //@   requires bufwf(buf) && buf != nil && evs != nil
 //@   let b = buf.buf[buf.off:]
 //@   ghost entry: pos = 0
@@ -770,6 +770,8 @@ package tcell
 //@     invariant [idx] -1 <= rangeindex && rangeindex < len(b) - 7 && pos == rangeindex + 1 && (state == 0 || state == 1) && len(b) > 7 && buf.off == old(buf.off) && buf.buf == old(buf.buf) && len(*evs) == old(len(*evs))
 //@     invariant [scanned] forall j int :: 0 <= j && j < pos - state ==> b64(b[7+j])
 //@     invariant [esc] state == 1 ==> pos >= 1 && b[7+pos-1] == 0x1b
+//@     invariant [hdr] oscHdr(b, 7)
+//@     invariant [nodelim] forall j int :: 0 <= j && j < 7 + pos ==> b[j] != 7 && b[j] != '\\'
 //@     decreases len(b) - 7 - rangeindex
 //@   modifies buf.off, buf.lastRead, evs
 
@@ -802,3 +804,15 @@ package tcell
 //@     invariant [wf] bufwf(buf) && keysNonEmpty(t.keycodes) && valsNonNil(t.keycodes) && !isNil(t.decoder) && t.ti != nil && t.cells.w >= 1 && t.cells.h >= 1
 //@     decreases len(buf.buf) - buf.off
 //@   modifies buf.off, buf.lastRead, buf.buf, t.escaped, t.buttondn, t.Mutex
+
+// inputLoop: every chunk handed to the main loop is a slice of a buffer allocated for that read alone (so a later
+// read cannot overwrite bytes that are still queued), holds exactly the bytes the read reported, and chunks are
+// sent in read order (sequential code); a read error ends the loop.
+//@ func (*tScreen).inputLoop
+//@   arith math
+//@   requires !isNil(t.tty)
+//@   calls [fresh-chunk] call("*send:keychan", v) ==> freshInIteration(v) && v.off == 0 && len(v) >= 1 && len(v) <= 128
+//@   calls [read-size] call(Read, recv, p, ret) ==> len(p) == 128
+//@   loop 1:
+//@     invariant [tty] !isNil(t.tty)
+//@   modifies t.Mutex, t.wg
